@@ -3,11 +3,12 @@ CONSTANTS
  P = 11
  Q = 5
  Gg = 3
- Vars = {"opt"}
- Ns = {2, 3, 4}
+ Vars = {"two"}
+ Ns = {2}
  MsgVecs <- MV11
  CCoins <- AllZq
- SCoins <- AllZq
+ SCoins <- C3b
  Tamper = FALSE
+ PowM <- TabPowM
 INVARIANTS Correct HonestAbort Refusal OneOnly Curious CuriousPairs
 CHECK_DEADLOCK FALSE
